@@ -123,9 +123,9 @@ theorem mds_MHolds_some : ∀ (d : Nat) (t : MTree r d) (x : Option DX) (h : Sla
       exact mds_MHolds_some d c none h (hh.2 c hc) id hic
 
 /-- a step that keeps the identifiers (`mds_HeapRel`) and does not lower the counter satisfies `mds_Post` -/
-theorem mds_Post_of_HeapRel {addr : Nat} {s s' : MHSt r} {d : Nat} {t t' : MTree r d} {x : Option DX}
+theorem mds_Post_of_HeapRel {addr : Nat} {s s' : MHSt r} {d : Nat} {t t' : MTree r d} {x x0 : Option DX}
     (hrel : mds_HeapRel s.heap s'.heap d t t' x) (hnd : (md_ids d t).Nodup) (haddr : ∀ id ∈ md_ids d t, id.addr = addr)
-    (hh : MHolds s.heap d t x) (ffs : mds_FreshFree addr s) (hctr : s.ctx.ctr ≤ s'.ctx.ctr) :
+    (hh : MHolds s.heap d t x0) (ffs : mds_FreshFree addr s) (hctr : s.ctx.ctr ≤ s'.ctx.ctr) :
     mds_Post addr s s' d t t' x where
   nodup := hrel.ids ▸ hnd
   addrOk := fun id hid => haddr id (hrel.ids ▸ hid)
@@ -136,7 +136,7 @@ theorem mds_Post_of_HeapRel {addr : Nat} {s s' : MHSt r} {d : Nat} {t t' : MTree
   ff := fun id ha hlt => by
     have hnone : s.heap id = none := ffs id ha (Nat.lt_of_le_of_lt hctr hlt)
     have hn : id ∉ md_ids d t := fun hid => by
-      have := mds_MHolds_some d t x s.heap hh id hid
+      have := mds_MHolds_some d t x0 s.heap hh id hid
       rw [hnone] at this; cases this
     rw [hrel.frame id hn]; exact hnone
 
@@ -165,8 +165,8 @@ theorem mds_Post_store {Q : (d : Nat) → MTree r d → Prop} {addr : Nat} {s1 :
 /-- after the child step: the index slab `m1` (header / child `i` replaced) in the state `s1` satisfies `mds_Pre`, and
     the identifier lists decompose as the composition lemma needs -/
 theorem mds_Pre_after_child {Q : (d : Nat) → MTree r d → Prop} {addr : Nat} {s s1 : MHSt r} {d : Nat}
-    (m : MMetaSlab (MTree r d)) (x : Option DX) (child child' : MTree r d) (i : Nat)
-    (hci : m.children[i]? = some child) (hh : MHolds s.heap (d + 1) m x) (hnd : (md_ids (d + 1) m).Nodup)
+    (m : MMetaSlab (MTree r d)) (x0 : Option DX) (child child' : MTree r d) (i : Nat)
+    (hci : m.children[i]? = some child) (hh : MHolds s.heap (d + 1) m x0) (hnd : (md_ids (d + 1) m).Nodup)
     (haddr : ∀ id ∈ md_ids (d + 1) m, id.addr = addr) (hhdrs : m.childHdrs = m.children.map (MTree.hdr d))
     (hQ : ∀ c ∈ m.children, Q d c) (hQ' : Q d child') (hpost : mds_Post addr s s1 d child child' none) :
     mds_Pre Q addr s1 d (mds_metaAfter m child' i) ∧
@@ -363,11 +363,11 @@ theorem mds_set_meta_full (cfg : MCfg) (k : MKey) (v : Elem) (Q : (d : Nat) → 
     (hS : MSplitTail cfg.T rs Q) (hM : MMorTail cfg.T rs Q)
     (hQset : ∀ d (t t' : MTree r d) ks old c c', Q d t → MTree.set cfg d t k v c = .ok (ks, old, t', c') → Q d t')
     (hT1 : maxThr cfg.T < 2^32) (hT2 : minThr cfg.T < 2^32) (hhk : k.dig 0 < 2^64)
-    (d depth : Nat) (m : MMetaSlab (MTree r d)) (x : Option DX) (s : MHSt r)
+    (d depth : Nat) (m : MMetaSlab (MTree r d)) (x x0 : Option DX) (s : MHSt r)
     (hfk : ∀ h ∈ m.childHdrs, h.firstKey < 2^64) (hlen : m.childHdrs.length < 2^62)
     (hhdrs : m.childHdrs = m.children.map (MTree.hdr d)) (hQ : ∀ c ∈ m.children, Q d c)
     (child : MTree r d) (hci : m.children[mds_idx m.childHdrs (k.dig 0)]? = some child)
-    (hh : MHolds s.heap (d + 1) m x) (hnd : (md_ids (d + 1) m).Nodup)
+    (hh : MHolds s.heap (d + 1) m x0) (hnd : (md_ids (d + 1) m).Nodup)
     (haddr : ∀ id ∈ md_ids (d + 1) m, id.addr = cfg.addr)
     (hsz : ∀ ks old child' c1, MTree.set cfg d child k v s.ctx = .ok (ks, old, child', c1) →
       (MTree.hdr d child').size < 2^32)
@@ -398,7 +398,7 @@ theorem mds_set_meta_full (cfg : MCfg) (k : MKey) (v : Elem) (Q : (d : Nat) → 
     obtain ⟨s1, h1, h2, h3, hpost⟩ := ihc
     subst h2
     have hsz' := hsz ks old child' s1.ctx hq
-    obtain ⟨hpre, hk1, As, Bs, e1, e2⟩ := mds_Pre_after_child (Q := Q) m x child child' _ hci hh hnd haddr hhdrs hQ
+    obtain ⟨hpre, hk1, As, Bs, e1, e2⟩ := mds_Pre_after_child (Q := Q) m x0 child child' _ hci hh hnd haddr hhdrs hQ
       (hQset d child child' ks old _ _ (hQ child (List.mem_of_getElem? hci)) hq) hpost
     have hgen : MapSlab_Set (envD cfg.T eb rs) (MapMetaDataSlab_Set (envD cfg.T eb rs) (depth + 1))
         (md_tree (d + 1) m x) s () k (u64 0) (u64 (k.dig 0)) (.key k) (.val v) =
@@ -488,7 +488,7 @@ theorem Ob_MapSlab_Set_heap_of_tails (cfg : MCfg) (k : MKey) (v : Elem) (P : DG 
     (hQset : ∀ d (t t' : MTree r d) ks old c c', Q d t → MTree.set cfg d t k v c = .ok (ks, old, t', c') → Q d t')
     (hmono : ∀ (sl : MDataSlab r) c ks old sl' c', MDataSlab.set cfg sl k v c = .ok (ks, old, sl', c') → c.ctr ≤ c'.ctr)
     (hT1 : maxThr cfg.T < 2^32) (hT2 : minThr cfg.T < 2^32) (hhk : k.dig 0 < 2^64) :
-    ∀ (d depth : Nat) (t : MTree r d) (x : Option DX) (s : MHSt r), d ≤ depth → MHolds s.heap d t x →
+    ∀ (d depth : Nat) (t : MTree r d) (x x0 : Option DX) (s : MHSt r), d ≤ depth → MHolds s.heap d t x0 →
       x.isSome = mds_rootFlag d t → (md_ids d t).Nodup → (∀ id ∈ md_ids d t, id.addr = cfg.addr) →
       mds_FreshFree cfg.addr s → mds_PathF cfg k v P Q d t s.ctx →
       match MTree.set cfg d t k v s.ctx with
@@ -503,7 +503,7 @@ theorem Ob_MapSlab_Set_heap_of_tails (cfg : MCfg) (k : MKey) (v : Elem) (P : DG 
   intro d
   induction d with
   | zero =>
-    intro depth t x s _ hh hx hnd haddr ffs hp
+    intro depth t x x0 s _ hh hx hnd haddr ffs hp
     have h := mds_set_data eb rs cfg k v P hE t x hx hp.1 s hp.2.1 hp.2.2 depth
     unfold mds_setRel at h
     rcases hq : MTree.set cfg 0 t k v s.ctx with e | ⟨ks, old, t', c'⟩
@@ -513,7 +513,7 @@ theorem Ob_MapSlab_Set_heap_of_tails (cfg : MCfg) (k : MKey) (v : Elem) (P : DG 
       obtain ⟨s', h1, h2, h3, hrel⟩ := h
       exact ⟨s', h1, h2, h3, mds_Post_of_HeapRel hrel hnd haddr hh ffs (by rw [h2]; exact hmono t s.ctx ks old t' c' hq)⟩
   | succ d ih =>
-    intro depth t x s hd hh _ hnd haddr ffs hp
+    intro depth t x x0 s hd hh _ hnd haddr ffs hp
     obtain ⟨hfk, hlen, hhdrs, hQ, child, hci, hroot, hpc, hsz⟩ := hp
     cases depth with
     | zero => omega
@@ -530,9 +530,9 @@ theorem Ob_MapSlab_Set_heap_of_tails (cfg : MCfg) (k : MKey) (v : Elem) (P : DG 
           rw [hAB]; simp
         rw [hids] at hnd
         exact (List.nodup_append.mp (List.nodup_append.mp (List.nodup_cons.mp hnd).2).2.1).1
-      exact mds_set_meta_full eb rs cfg k v Q hS hM hQset hT1 hT2 hhk d depth' t x s hfk hlen hhdrs hQ child hci hh
+      exact mds_set_meta_full eb rs cfg k v Q hS hM hQset hT1 hT2 hhk d depth' t x x0 s hfk hlen hhdrs hQ child hci hh
         hnd haddr hsz
-        (ih depth' child none s (by omega) hhc (by rw [hroot]; rfl) hndc (fun id hid => haddr id (hsub id hid)) ffs hpc)
+        (ih depth' child none none s (by omega) hhc (by rw [hroot]; rfl) hndc (fun id hid => haddr id (hsub id hid)) ffs hpc)
 
 end
 
